@@ -8,8 +8,8 @@ use crate::model::Jet;
 use crate::rng::Rng;
 use crate::taylor::Func;
 use crate::track::Tr;
-use num_dual::DualNum;
-use num_traits::{FloatConst, FromPrimitive, Inv, One, Signed, Zero};
+
+use num_traits::{FloatConst, Inv, Signed};
 #[allow(unused_imports)]
 use num_dual::DualNum as _;
 use serde_json::{json, Value};
@@ -87,6 +87,10 @@ impl Node {
     }
 }
 
+/// everything a type must offer to run generated programs
+pub trait ProgTy: Jetty + FloatConst + for<'a> std::iter::Sum<&'a Self> + for<'a> std::iter::Product<&'a Self> {}
+impl<T> ProgTy for T where T: Jetty + FloatConst + for<'a> std::iter::Sum<&'a T> + for<'a> std::iter::Product<&'a T> {}
+
 #[derive(Clone, Debug)]
 pub struct Program {
     pub ninputs: usize,
@@ -123,10 +127,7 @@ impl Program {
     }
 
     /// evaluate over a real type; returns every node value
-    pub fn eval<T>(&self, inputs: &[T]) -> Vec<T>
-    where
-        T: Jetty + FloatConst + for<'a> std::iter::Sum<&'a T> + for<'a> std::iter::Product<&'a T>,
-    {
+    pub fn eval<T: ProgTy>(&self, inputs: &[T]) -> Vec<T> {
         let mut v: Vec<T> = Vec::with_capacity(self.nodes.len());
         let c = |x: f64| -> T::F { <T::F as num_traits::NumCast>::from(x).unwrap() };
         for n in &self.nodes {
@@ -257,7 +258,13 @@ impl Program {
                 Node::Input(i) => inputs[*i].clone(),
                 Node::Const(x) => Tr::constant(b, rc(*x)),
                 Node::ConstPrim(k) => Tr::constant(b, *k as f64),
-                Node::FloatConst(i) => Tr::constant(b, rc(FLOAT_CONSTS[(*i % 8) as usize].1)),
+                Node::FloatConst(i) => {
+                    // an irrational constant rounded to the float type: one unit of error
+                    // relative to the mathematical value (matters when f32 meets f64 in C04)
+                    let mut t = Tr::constant(b, rc(FLOAT_CONSTS[(*i % 8) as usize].1));
+                    t.e.c[0] = t.v.c[0].abs();
+                    t
+                }
                 Node::Zero => Tr::constant(b, 0.0),
                 Node::One => Tr::constant(b, 1.0),
                 Node::Un(f, a) => v[*a].func(*f, b),
@@ -319,6 +326,43 @@ impl Program {
         }
         v
     }
+}
+
+/// Model of a driver call: the program over the algebra Level(outer, elem), where input j carries
+/// the element parts `xparts[j]` and a unit first-order part in every outer variable v with
+/// seed[v] == j. Returns (values, error magnitudes) per storage slot (outer-major).
+pub fn model_partials(
+    prog: &Program,
+    elem: &crate::basis::Shape,
+    xparts: &[Vec<f64>],
+    outer: crate::basis::Kind,
+    seed: &[usize],
+    f32: bool,
+) -> (Vec<f64>, Vec<f64>) {
+    let shape = crate::basis::Shape::level(outer.clone(), elem.clone());
+    let b = Basis::new(&shape);
+    let ne = elem.nslots();
+    let oslots = outer.slots();
+    let inputs: Vec<Tr> = xparts
+        .iter()
+        .enumerate()
+        .map(|(j, xp)| {
+            let mut s = vec![0.0; b.nslots()];
+            s[..ne].copy_from_slice(xp);
+            for (o, ex) in oslots.iter().enumerate() {
+                let deg: usize = ex.iter().map(|e| *e as usize).sum();
+                if deg == 1 {
+                    let v = ex.iter().position(|e| *e == 1).unwrap();
+                    if seed[v] == j {
+                        s[o * ne] = 1.0;
+                    }
+                }
+            }
+            Tr::exact(Jet::from_slots(&b, &s), &b)
+        })
+        .collect();
+    let out = prog.eval_model(&inputs, &b, f32);
+    out.last().unwrap().slots(&b)
 }
 
 /// atan2(y,x) = Im log(x + i y) in complex jet arithmetic, with error tracking
